@@ -305,6 +305,25 @@ def run_history(res, exe, rng, first):
                 v2, _ = S.sdo_read(sim, nid, 0x1006, 0)
                 if v2 != m.cycle:
                     fail("readback/1006", "1006h reads %r, reference %d" % (v2, m.cycle)); return
+            elif x < 0.735 and m.mode in (PREOP, OP):
+                # a segmented download that delivers only two of the four bytes of 1005h / 1006h: refused, nothing changes
+                idx = rng.choice([0x1005, 0x1006])
+                two = rng.choice([bytes([0x80, 0x00]), bytes([0x00, 0x40]), bytes([0x10, 0x27])])
+                script.append("2-byte segmented download %s to %x" % (two.hex(), idx))
+                rid = 0x600 + nid
+                sim.rx(rid, bytes([0x20, idx & 0xFF, idx >> 8, 0, 0, 0, 0, 0]))
+                evs = sim.rx(rid, bytes([0x0B]) + two + bytes(5))
+                ans = [d for (t, c, dlc, d, f) in S.txs(evs) if c == 0x580 + nid]
+                if not ans or ans[0][0] != 0x80:
+                    fail("verdict/short-download", "two bytes written to %xh by segmented download answered %r, reference abort" % (idx, [a.hex() for a in ans])); return
+                sim.cmd("geterr")
+                v2, _ = S.sdo_read(sim, nid, idx, 0)
+                if v2 != (m.cobid if idx == 0x1005 else m.cycle):
+                    fail("readback/short-download", "%xh reads %r after the refused short download, reference %x" % (idx, v2, m.cobid if idx == 0x1005 else m.cycle)); return
+                err = observe(t0, [e for e in evs if not (e[0] == "tx" and int(e[2], 16) == 0x580 + nid)])
+                if err:
+                    fail("schedule/short-download", err); return
+                res.counters["short_downloads_refused"] += 1
             elif x < 0.745 and m.mode == OP:
                 # a long run of SYNCs (more than 256 without restart): the n-th-SYNC schedule of the synchronous TPDO does not drift
                 n = rng.choice([260, 300, 520])
